@@ -1,0 +1,1 @@
+//! Verification hooks: planner (cfg `rten_verif`).
